@@ -43,7 +43,10 @@ CLAIMED["C20"] = (
     "Structural clauses only: which attributes flow through the dependency "
     "mapper into the read set, which attributes map_expressions maps, and the "
     "data flow of ids/names in fusion and disambiguation are decided from the "
-    "source for all inputs. The transitive-reduction clause is declined.",
+    "source for all inputs; for the graph export, the fixed-point loop that "
+    "closes the dependency relation (flag reset per sweep, only raised inside "
+    "it, exit only after an unchanged sweep). The reduction step that follows "
+    "is declined.",
     _NOTE, "DESIGN.md section 5, C20")
 
 CLAIMED["C06"] = (
@@ -109,7 +112,8 @@ CLAIMED["C17"] = (
     "same template instantiation for __getstate__/__setstate__; census of "
     "pickle bypasses; taint-style rule on every value reaching the persistent "
     "digest (must be a process-independent string) and on iteration order of "
-    "mapping-valued fields",
+    "mapping-valued fields; class-table agreement between the registered numpy "
+    "constant classes and the digest's normalisation test",
     "State = field tuple only and digest inputs/iteration order are facts about "
     "the code, decided for all expressions; cross-process behaviour follows "
     "because nothing process-dependent (hash(), id(), dict order of equal "
@@ -131,10 +135,14 @@ CLAIMED["C05"] = (
 CLAIMED["C11"] = (
     "path-condition rules on the flatten work-list loops and on fold() "
     "(which conditions dominate each append / re-queue / return), MRO and "
-    "table agreement of the folding mappers, rule F on FlattenMapper",
+    "table agreement of the folding mappers, rule F on FlattenMapper, def-use "
+    "rules on TermCollector's bookkeeping (which component of the (base, "
+    "exponent) table reaches the coefficient / the term key, accumulation by "
+    "addition)",
     "Partial: the structural clauses of flattening and constant folding are "
-    "decided for all inputs from the path conditions; value preservation and "
-    "the normal forms of term collection and distribution are declined (no "
+    "decided for all inputs from the path conditions; for term collection only "
+    "that no component is dropped while splitting and re-assembling; value "
+    "preservation and the normal forms of distribution are declined (no "
     "structural reading).",
     _NOTE, "DESIGN.md section 5, C11")
 
@@ -152,33 +160,40 @@ CLAIMED["C15"] = (
     "attribute-existence rule over the dispatch relation of "
     "CoefficientCollector; refusal (raise) structure of its product/quotient/"
     "power handlers; covering-or-raising for all node classes; dominance of the "
-    "solver's refusals over its division",
+    "solver's refusals over its division; exact-by-construction rule on every "
+    "floor division of the integer elimination (lcm over its own argument, or "
+    "a whole row over the gcd of that row)",
     "Partial: only refusal and guard structure is decided (non-affine input "
     "raises, composite leaves do not crash, the solver refuses before it "
-    "divides). Correctness of the coefficients and of Gaussian elimination is "
-    "numeric and declined.",
+    "divides, the integer elimination never rounds). Correctness of the "
+    "coefficients and of the elimination order is numeric and declined.",
     _NOTE, "DESIGN.md section 5, C15")
 
 CLAIMED["C19"] = (
     "path rule (raise dominates loop) on integer_power; rules F/K/W with "
     "single-use-iterator tracking on the polynomial traversals; path conditions "
-    "of quotient(); class census for hashability of the exact legacy nodes",
+    "of quotient(); class census for hashability of the exact legacy nodes; "
+    "argument-forwarding rule on the thin FFT wrappers",
     "Partial: only the anchored structural clauses are decided (negative-n "
     "refusal, coefficients surviving a rewriting mapper, exact-quotient node "
-    "built only for Euclidean rings and evaluated as numerator/denominator). "
-    "Euclid, lcm, FFT and polynomial arithmetic are numeric and declined.",
+    "built only for Euclidean rings and evaluated as numerator/denominator, "
+    "ifft/sym_fft hand every option on to fft). Euclid, lcm, the FFT butterfly "
+    "and polynomial arithmetic are numeric and declined.",
     _NOTE, "DESIGN.md section 5, C19")
 
 CLAIMED["C16"] = (
     "pairwise-field rule on every UnifierBase handler (class test dominates "
     "reads of the target, same field on both sides, records threaded), "
     "ownership rule on UnificationRecord construction sites, path rule on the "
-    "candidate filters, inverse-table check of the matchpy to/from mappers over "
-    "the op dataclasses",
+    "candidate filters and the merge functions, index-accounting rules on the "
+    "associative-commutative search (roles of the nested helpers identified by "
+    "def-use, then checked path by path), inverse-table check of the matchpy "
+    "to/from mappers over the op dataclasses and of the binding conversion of "
+    "replacement callbacks",
     "Partial: soundness-relevant structure is decided for all inputs (what is "
-    "matched against what, who may create records, how bindings merge, that the "
-    "bridge is lossless field by field). Completeness and the AC search are "
-    "declined.",
+    "matched against what, who may create records, how bindings merge, that "
+    "every target child of an AC match is used exactly once, that the bridge is "
+    "lossless field by field and binding by binding). Completeness is declined.",
     _NOTE, "DESIGN.md section 5, C16")
 
 CLAIMED["C02"] = (
@@ -186,7 +201,7 @@ CLAIMED["C02"] = (
     "return expression) compared with a node->Python-construct oracle; path "
     "rule for conditional laziness and the unknown-variable error; except-"
     "clause scan; child coverage; covering-or-raising over the dispatch "
-    "relation",
+    "relation; look-aside path rules and key coverage of the memoizing variant",
     "Each of the ~30 evaluator handlers is one finite fact (operator identity, "
     "operand order, which children are evaluated on which path) that holds for "
     "every expression using that node type; the global statement follows by "
